@@ -1,10 +1,12 @@
 WEAVE = [dict(file='src/fiber.c', fns=['fiber_mark_completed', 'fiber_join', 'fiber_tryjoin', 'fiber_detach'])]
 def H(n, twin=False):
-    return dict(name=n + ('_twin' if twin else ''), tu='join.c', harness='h_' + n, mode='H', functions=['fiber_' + n],
+    # unwind: the CAS retry loops of join / mark_completed repeat only when detach_state changed under them, and the protocol allows at most four
+    # changes (NONE -> WAIT_TO_JOIN -> WAIT_FOR_JOINER -> WAIT_TO_JOIN -> DETACHED); the unwinding assertions check that 6 rounds are enough
+    return dict(name=n + ('_twin' if twin else ''), tu='join.c', harness='h_' + n, mode='H', functions=['fiber_' + n], unwind=6, exact_unwind=True,
                 defs=(['-DNO_DETACH_WHILE_JOINER_PARKED'] if twin else []))
 GROUPS = [H('join'), H('join', True), H('tryjoin'), H('detach'), H('mark_completed')]
 ASSUMPTIONS = ['fiber_manager_set_and_wait / clear_or_wait / scheduler by the C01 contracts (park publishes the value only after the context is saved; clear_or_wait returns the parked party)',
-               'after my own exchange on detach_state the other parties follow the protocol (they do not exchange again in a way that concerns me); the racy overwrites of DETACHED by a concurrent exchange are not modelled',
+               'after my own exchange on detach_state the other parties follow the protocol (they do not exchange again in a way that concerns me); fiber_detach may act at any instant before that (obligation: DETACHED is final)',
                'twin: no fiber_detach while a joiner is parked']
 # obligation groups of other properties' specifications that this property also rests on (its anchors name those files); see DESIGN.md 11.2
 IMPORTS = [dict(prop='C01', groups=['set_and_wait', 'clear_or_wait', 'maintenance', 'maintenance_migrating_unlock', 'completion'])]
